@@ -419,6 +419,13 @@ class WebVTTWriter(BaseWriter):
                 s = s.replace("-->", "--&gt;")
                 current_layout = node.layout_info
             elif node.type_ == CaptionNode.STYLE:
+                if (node.start and s and current_layout and node.layout_info
+                        and node.layout_info != current_layout):
+                    # A span that begins in the next layout group opens in
+                    # the cue of that group, not at the end of this one
+                    layout_groups.append((s, current_layout))
+                    s = ""
+                    current_layout = node.layout_info
                 resulting_style = self._calculate_resulting_style(
                     node.content, caption_set
                 )
